@@ -1,12 +1,16 @@
 #!/bin/bash
-# tools/seeded_run.sh <seed-id> <only-list> <prop> [<prop>...] : apply seeded/<id>/patch.diff to /repo, run the checks, revert
+# tools/seeded_run.sh <seed-id> <only-list or - for everything> <prop> [<prop>...] : apply seeded/<id>/patch.diff to /repo, run the checks, revert
 id=$1; only=$2; shift 2
 cd /verif
 git -C /repo diff --quiet || { echo "/repo has uncommitted changes"; exit 2; }
 git -C /repo apply /verif/seeded/$id/patch.diff || exit 2
 for p in "$@"; do
   echo "--- $id: ./check $p quick (VERIF_ONLY=$only)"
-  VERIF_ONLY=$only ./check $p quick 2>&1 | grep -E "^VIOLATION|^KNOWN|quick:" | cut -c1-260
+  if [ "$only" = "-" ]; then
+    ./check $p quick 2>&1 | grep -E "^VIOLATION|^KNOWN|quick:" | cut -c1-260 | head -40
+  else
+    VERIF_ONLY=$only ./check $p quick 2>&1 | grep -E "^VIOLATION|^KNOWN|quick:" | cut -c1-260 | head -40
+  fi
   echo "exit=${PIPESTATUS[0]}"
 done
 git -C /repo checkout -- .
